@@ -15,7 +15,10 @@ EXPLANATION = ("isPointExcluded/isAnyPointExcluded: while disabled no point is e
                "(so decisions after re-enabling use the true position); disableExclusion mid-episode returns exactly an exit sequence "
                "(C03.resync obligations) and handleAtCommand sends it in order through the comm instance; streaming to SD or no matching "
                "entry: returns False with an empty write set; AtCommandAction.matches is true exactly when the command names are equal and "
-               "the configured pattern (an opaque predicate) matches the parameter text at its start. " + STREAM_NOTE + " The @-command table built by _handleSettingsUpdated keeps every configured action, grouped by command in configuration order.")
+               "the configured pattern (an opaque predicate) matches the parameter text at its start. " + STREAM_NOTE + " The @-command table built by _handleSettingsUpdated keeps every configured action, grouped by command in configuration order. "
+               "The dispatcher and the move handlers (handleGcode, _handle_G0.._handle_G3) hand every move -- arcs included -- to processLinearMoves "
+               "whether or not exclusion is enabled, so position, extruder coordinate and an owed recovery keep being tracked while disabled; "
+               "on_event resets the state at every print start (base case).")
 BREAKERS = [
     {"module": "ExcludeRegionState", "old": "        xAxis = self.position.X_AXIS\n        yAxis = self.position.Y_AXIS\n        exclude = False\n\n        for index",
      "new": "        xAxis = self.position.X_AXIS\n        yAxis = self.position.Y_AXIS\n        exclude = False\n        if (not self._exclusionEnabled):\n            return False\n\n        for index",
